@@ -4,13 +4,15 @@ D: NerRepairDesign.tla - the dead-link repair as a state machine (every small tr
 T: every tree returned by rig's route() (and by ner_net alone on fault-free machines) is one event judged by
    RoutingTreeTrace.tla; a failure of route() is judged against the spec's own connectivity of the machine.
 """
+import collections
 import itertools
 import random
 
 from rig.links import Links
 from rig.netlist import Net
 from rig.place_and_route import Machine, Cores, SDRAM
-from rig.place_and_route.constraints import RouteEndpointConstraint
+from rig.place_and_route.constraints import (RouteEndpointConstraint, LocationConstraint, SameChipConstraint,
+                                             ReserveResourceConstraint, AlignResourceConstraint)
 from rig.place_and_route.route.ner import route, ner_net
 from rig.place_and_route.route import utils as route_utils
 from rig import geometry
@@ -33,25 +35,61 @@ def sink_records(net, vidx, placements, allocations, endpoints, core=Cores):
     return out
 
 
-def route_trace(machine, nets, placements, allocations, endpoints, radius, seed, vertices, core=Cores):
+def route_trace(machine, nets, placements, allocations, endpoints, radius, seed, vertices, core=Cores,
+                extra_cons=(), how=None):
+    """One call of route().  how (optional) chooses the caller's way of making the same call:
+       alloc  "given" | "omitted" (the default {} of route() is used: no vertex owns cores)
+       radius "given" | "omitted" (the documented default of 20)
+       cons / nets  "list" | "tuple" | "iter" | "deque": the container the constraints / nets arrive in
+    extra_cons: constraints of other kinds (they say nothing about routing) mixed into the constraint list."""
+    how = how or {}
     vidx = {v: i for i, v in enumerate(vertices)}
-    cons = [RouteEndpointConstraint(v, r) for v, r in endpoints.items()]
+    cons = [RouteEndpointConstraint(v, r) for v, r in endpoints.items()] + list(extra_cons)
+    if extra_cons:
+        random.Random(seed).shuffle(cons)
+    nets = list(nets)
+    box = dict(list=list, tuple=tuple, iter=iter, deque=collections.deque)
+    cons_arg = box[how.get("cons", "list")](cons)
+    nets_arg = box[how.get("nets", "list")](nets)
+    if how.get("alloc") == "omitted":
+        allocations = {}
+    if how.get("radius") == "omitted":
+        radius = 20
     tr = proj.machine_json(machine)
     tr["radius"] = radius
     tr["seed"] = seed
     evs = []
     random.seed(seed)
+    vr = {v: {} for v in vertices}
     try:
-        if core is Cores and seed % 2:
-            routes = route({v: {} for v in vertices}, nets, machine, cons, placements, allocations, radius=radius)
+        if how:
+            kw = {}
+            if how.get("alloc") != "omitted":
+                kw["allocations"] = allocations
+            if core is not Cores:
+                kw["core_resource"] = core
+            if how.get("radius") != "omitted":
+                kw["radius"] = radius
+            routes = route(vr, nets_arg, machine, cons_arg, placements, **kw)
+        elif core is Cores and seed % 2:
+            routes = route(vr, nets_arg, machine, cons_arg, placements, allocations, radius=radius)
         else:
-            routes = route({v: {} for v in vertices}, nets, machine, cons, placements, allocations, core, radius)
+            routes = route(vr, nets_arg, machine, cons_arg, placements, allocations, core, radius)
     except Exception as ex:
         evs.append(["raise", type(ex).__name__])
         tr["nets"] = [[list(placements[n.source]), [list(placements[s]) for s in n.sinks]] for n in nets]
     else:
         for n in nets:
-            nodes, edges, leaves = proj.flatten_tree(routes[n], vidx)
+            try:
+                tree = routes[n]
+            except Exception as ex:                       # "for every net the router returns a tree"
+                evs.append(["notree", type(ex).__name__])
+                continue
+            try:
+                nodes, edges, leaves = proj.flatten_tree(tree, vidx)
+            except Exception as ex:                       # not a tree of chips, links and the call's vertices
+                evs.append(["malformed", type(ex).__name__])
+                continue
             evs.append(["tree", dict(src=list(placements[n.source]),
                                      sinks=sink_records(n, vidx, placements, allocations, endpoints, core),
                                      nodes=nodes, edges=edges, leaves=leaves)])
@@ -60,8 +98,15 @@ def route_trace(machine, nets, placements, allocations, endpoints, radius, seed,
     return tr
 
 
-def ner_trace(w, h, wrap, src, dests, radius, seed):
-    """ner_net alone on a fault-free machine (the tree has no leaves yet)"""
+def ner_trace(w, h, wrap, src, dests, radius, seed, how=None):
+    """ner_net alone on a fault-free machine (the tree has no leaves yet).
+    how (optional): dests "set" | "list" | "tuple" | "iter" (the destinations are documented as an iterable; a list keeps
+    the caller's duplicates), radius / wrap "omitted" (documented defaults: 10, no wrap-around links)"""
+    how = how or {}
+    if how.get("wrap") == "omitted":
+        wrap = False
+    if how.get("radius") == "omitted":
+        radius = 10
     m = Machine(w, h, dead_links=set() if wrap else gen.mesh_dead_links(w, h))
     tr = proj.machine_json(m)
     tr["radius"] = radius
@@ -69,20 +114,49 @@ def ner_trace(w, h, wrap, src, dests, radius, seed):
     random.seed(seed)
     evs = []
     try:
-        root, lookup = ner_net(src, set(dests), w, h, wrap, radius)
+        if not how:
+            root, lookup = ner_net(src, set(dests), w, h, wrap, radius)
+        else:
+            arg = dict(set=set, list=list, tuple=tuple, iter=iter)[how.get("dests", "set")](dests)
+            kw = {}
+            if how.get("wrap") != "omitted":
+                kw["wrap_around"] = wrap
+            if how.get("radius") != "omitted":
+                kw["radius"] = radius
+            root, lookup = ner_net(src, arg, w, h, **kw)
     except Exception as ex:
         evs.append(["raise", type(ex).__name__])
     else:
-        nodes, edges, leaves = proj.flatten_tree(root, {})
-        # sinks that get no leaf (kind "cores" with an empty range): only their chip must be in the tree
-        sinks = [[i, d[0], d[1], "cores", 0, 0] for i, d in enumerate(sorted(set(dests)))]
-        evs.append(["tree", dict(src=list(src), sinks=sinks, nodes=nodes, edges=edges, leaves=leaves)])
-        evs.append(["ok"])
+        try:
+            nodes, edges, leaves = proj.flatten_tree(root, {})
+        except Exception as ex:
+            evs.append(["malformed", type(ex).__name__])
+        else:
+            # sinks that get no leaf (kind "cores" with an empty range): only their chip must be in the tree
+            sinks = [[i, d[0], d[1], "cores", 0, 0] for i, d in enumerate(sorted(set(dests)))]
+            evs.append(["tree", dict(src=list(src), sinks=sinks, nodes=nodes, edges=edges, leaves=leaves)])
+            evs.append(["ok"])
     tr["ev"] = evs
     return tr
 
 
-def random_problem(rng, machine, nnets):
+def ner_shapes(chk, rng):
+    """ner_net alone, called the other ways its signature allows: destinations as a list with repeats / tuple /
+    iterator, none at all, the source among them; wrap_around and radius left to their defaults"""
+    for i in range(chk.pick(120, 3000)):
+        w, h = rng.choice(((1, 1), (1, 4), (2, 2), (2, 7), (3, 3), (5, 4), (8, 8), (12, 3), (9, 9), (14, 11)))
+        chips = [(x, y) for x in range(w) for y in range(h)]
+        src = rng.choice(chips)
+        dests = [rng.choice(chips) for _ in range(rng.choice((0, 1, 2, 4, 9, 30)))]
+        if dests and rng.random() < 0.3:
+            dests.append(src)
+        how = dict(dests=rng.choice(("set", "list", "tuple", "iter")), wrap=rng.choice(("given", "omitted")),
+                   radius=rng.choice(("given", "omitted")))
+        yield ner_trace(w, h, rng.random() < 0.6, src, dests, rng.choice((0, 1, 2, 4, 6, 10, 15, 20, 30)),
+                        chk.seed * 100000 + 95000 + i, how)
+
+
+def random_problem(rng, machine, nnets, p_endpoint=0.08, fanouts=(1, 1, 2, 3, 5, 8), core_endpoints=False):
     chips = list(machine)
     nv = rng.randint(1, min(24, 3 * len(chips)))
     vertices = ["v%d" % i for i in range(nv)]
@@ -91,12 +165,13 @@ def random_problem(rng, machine, nnets):
     nxt = {}
     for v in vertices:
         r = rng.random()
-        if r < 0.08:
-            endpoints[v] = Routes(rng.randrange(6))           # device vertex: route to a link
+        if r < p_endpoint:
+            # device vertex: route to a link (or, with core_endpoints, to a core: any Routes value may be named)
+            endpoints[v] = Routes(rng.randrange(24 if core_endpoints else 6))
             # it may or may not own cores as well (e.g. {Cores: 0} gives an empty range); the endpoint wins
             k = rng.choice((None, None, 0, 1))
             allocations[v] = {} if k is None else {Cores: slice(17 - k, 17)}
-        elif r < 0.14:
+        elif r < p_endpoint + 0.06:
             allocations[v] = {SDRAM: slice(0, 4)}              # no core resource at all
         else:
             c = placements[v]
@@ -109,7 +184,7 @@ def random_problem(rng, machine, nnets):
     nets = []
     for _ in range(nnets):
         src = rng.choice(vertices)
-        k = rng.choice((1, 1, 2, 3, 5, 8))
+        k = rng.choice(fanouts)
         sinks = [rng.choice(vertices) for _ in range(k)]       # repeated sinks and self-loops allowed
         nets.append(Net(src, sinks, rng.choice((1, 0, 2.5))))
     return vertices, placements, allocations, endpoints, nets
@@ -184,6 +259,266 @@ def seam_problems(chk, rng):
                     yield route_trace(m, [net], placements, allocations, {}, radius, 7000 + n, vertices)
 
 
+class _Vertex(object):
+    """a caller's own vertex class: hashable by identity, not orderable, no useful repr"""
+    __slots__ = ("tag",)
+
+    def __init__(self, tag):
+        self.tag = tag
+
+
+def rename_vertices(rng, kind, vertices, placements, allocations, endpoints, nets):
+    """the same problem with the caller's vertices being objects of another kind (rig documents a vertex as any
+    hashable object): ints (0 included), tuples, instances of a user class, or a mixture that cannot be ordered"""
+    def make(i, v):
+        k = kind if kind != "mixed" else ("int", "tuple", "object", "str", "frozenset")[i % 5]
+        if k == "int":
+            return i
+        if k == "tuple":
+            return ("vertex", i)
+        if k == "object":
+            return _Vertex(i)
+        if k == "frozenset":
+            return frozenset([i, "f"])
+        return v
+    ren = {v: make(i, v) for i, v in enumerate(vertices)}
+    return ([ren[v] for v in vertices], {ren[v]: c for v, c in placements.items()},
+            {ren[v]: a for v, a in allocations.items()}, {ren[v]: r for v, r in endpoints.items()},
+            [Net(ren[n.source], [ren[x] for x in n.sinks], n.weight) for n in nets])
+
+
+def strongly_connected(machine):
+    """every working chip reaches every other over working directed links (forwards and backwards from one chip).
+    Used only to keep the large generated machines inside the connected part of the domain, where route() must
+    succeed; the verdict on a failure is always TLC's (Hex!Connected)."""
+    chips = set(machine)
+    if not chips:
+        return True
+    fwd, bwd = {}, {}
+    for (x, y) in chips:
+        for l in Links:
+            if (x, y, l) in machine:
+                dx, dy = l.to_vector()
+                n = ((x + dx) % machine.width, (y + dy) % machine.height)
+                if n in chips:
+                    fwd.setdefault((x, y), []).append(n)
+                    bwd.setdefault(n, []).append((x, y))
+    c0 = next(iter(chips))
+    for g in (fwd, bwd):
+        seen, todo = {c0}, [c0]
+        while todo:
+            for n in g.get(todo.pop(), ()):
+                if n not in seen:
+                    seen.add(n)
+                    todo.append(n)
+        if seen != chips:
+            return False
+    return True
+
+
+def faulty_machine(rng, w, h, mesh, fault_rate, p_dead_chip=0.0, blocks=0, spinn5=False, connected=False, tries=12):
+    """a machine of a given size: mesh or torus, one- and two-directional dead links, scattered dead chips and
+    *clusters* of dead chips (rectangular blocks, or the missing corners of a SpiNN-5 board on an 8x8 grid)"""
+    for _ in range(tries):
+        dead_links = set(gen.mesh_dead_links(w, h)) if mesh else set()
+        dead_chips = set()
+        if spinn5:
+            for x in range(w):
+                for y in range(h):
+                    bx, by = x % 8, y % 8
+                    if by - bx > 3 or bx - by > 4:
+                        dead_chips.add((x, y))
+        for _b in range(blocks):
+            bw, bh = rng.randint(1, 3), rng.randint(1, 3)
+            bx, by = rng.randrange(w), rng.randrange(h)
+            for i in range(bw):
+                for j in range(bh):
+                    dead_chips.add(((bx + i) % w, (by + j) % h))
+        for x in range(w):
+            for y in range(h):
+                if rng.random() < p_dead_chip:
+                    dead_chips.add((x, y))
+        if len(dead_chips) >= w * h:
+            dead_chips = set(list(sorted(dead_chips))[1:])
+        for (x, y, l) in gen.all_links(w, h):
+            if rng.random() < fault_rate:
+                dead_links.add((x, y, l))
+                if rng.random() < 0.5:
+                    dx, dy = l.to_vector()
+                    dead_links.add(((x + dx) % w, (y + dy) % h, l.opposite))
+        m = Machine(w, h, dead_chips=dead_chips, dead_links=dead_links)
+        if not connected or strongly_connected(m):
+            return m
+        fault_rate /= 2.0
+    return Machine(w, h, dead_links=set(gen.mesh_dead_links(w, h)) if mesh else set())
+
+
+def one_core_each(chips_src, chips_sinks, name="b"):
+    """a net from one vertex to one single-core vertex per sink chip"""
+    vertices = [name + "s"] + ["%s%d" % (name, i) for i in range(len(chips_sinks))]
+    placements = {vertices[0]: chips_src}
+    allocations = {vertices[0]: {Cores: slice(0, 1)}}
+    for i, c in enumerate(chips_sinks):
+        placements[vertices[1 + i]] = c
+        allocations[vertices[1 + i]] = {Cores: slice(1 + i % 16, 2 + i % 16)}
+    return vertices, placements, allocations, Net(vertices[0], vertices[1:])
+
+
+def broadcast_on_faults(chk, rng):
+    """nets reaching a large share of the chips of a *faulty* machine through route(): the tree to repair is large, has
+    many orphaned subtrees at once, and a detour runs through other orphans and through earlier detours"""
+    for i in range(chk.pick(36, 1500)):
+        w, h = rng.choice(((4, 4), (5, 5), (6, 6), (8, 8), (7, 10), (12, 5), (10, 10), (12, 12), (3, 14), (16, 4), (2, 12)))
+        m = faulty_machine(rng, w, h, rng.random() < 0.3, rng.choice((0.02, 0.05, 0.1, 0.2, 0.3)),
+                           p_dead_chip=rng.choice((0, 0, 0.05)), blocks=rng.choice((0, 0, 1, 2)),
+                           connected=(w * h > 64))
+        chips = sorted(m)
+        src = rng.choice(chips)
+        sinks = rng.sample(chips, max(1, int(len(chips) * rng.choice((0.3, 0.6, 1.0)))))
+        vertices, placements, allocations, net = one_core_each(src, sinks)
+        nets = [net]
+        if rng.random() < 0.4:                              # and a small net of the same vertices in the same call
+            nets.append(Net(rng.choice(vertices), [rng.choice(vertices) for _ in range(3)]))
+        yield route_trace(m, nets, placements, allocations, {}, rng.choice((0, 1, 2, 3, 5, 20)),
+                          chk.seed * 100000 + 60000 + i, vertices)
+
+
+def big_machines(chk, rng):
+    """machines of the sizes that are built (one SpiNN-5 board, three boards, a frame and more) with clustered dead
+    chips, a few nets with near and far sinks (further apart than the default radius)"""
+    shapes = [(8, 8, True, True), (12, 12, False, False), (24, 12, False, False), (12, 24, True, False),
+              (20, 20, True, False), (16, 16, False, True), (36, 24, False, False), (1, 40, False, False),
+              (40, 2, False, False)]
+    for i in range(chk.pick(14, 300)):
+        w, h, mesh, s5 = shapes[i % len(shapes)] if chk.quick else rng.choice(shapes + [(48, 24, False, False)])
+        m = faulty_machine(rng, w, h, mesh, rng.choice((0.0, 0.01, 0.03)), blocks=rng.choice((0, 1, 3)),
+                           spinn5=s5, connected=True)
+        vertices, placements, allocations, endpoints, nets = random_problem(rng, m, rng.randint(1, 3))
+        how = dict(radius="omitted") if i % 3 == 0 else None
+        yield route_trace(m, nets, placements, allocations, endpoints, rng.choice((0, 5, 10, 20, 40)),
+                          chk.seed * 100000 + 70000 + i, vertices, how=how)
+
+
+def long_detours(chk, rng):
+    """faults that force the repair far away from the straight line: a ring (1xN, Nx1, 2xN torus) cut in one place, so
+    that the only way is round the other side; a wall of dead chips (or of dead links) across a large mesh with the
+    source on one side and the sinks on the other"""
+    for i in range(chk.pick(16, 400)):
+        seed = chk.seed * 100000 + 98000 + i
+        if i % 2 == 0:
+            n = rng.choice((12, 20, 33, 48))
+            w, h = rng.choice(((1, n), (n, 1), (2, n), (n, 2)))
+            a = rng.randrange(n)
+            along = (lambda k: (0, k % n)) if h == n else (lambda k: (k % n, 0))
+            src, dst = along(a), along(a + rng.randint(1, 3))
+            # every link leaving the source's column/row towards the sink is dead in that direction only
+            fwd = (Links.north, Links.north_east) if h == n else (Links.east, Links.north_east)
+            dead = set()
+            for c in ([along(a)] if min(w, h) == 1 else [along(a), ((1, along(a)[1]) if h == n else (along(a)[0], 1))]):
+                for l in Links:
+                    dx, dy = l.to_vector()
+                    if (dy if h == n else dx) == 1:
+                        dead.add((c[0], c[1], l))
+            m = Machine(w, h, dead_links=dead)
+            sinks = [dst, along(a + n // 2)]
+        else:
+            w, h = rng.choice(((12, 12), (16, 10), (20, 20), (9, 24)))
+            wall_x = rng.randrange(2, w - 2)
+            gap = rng.randrange(h)
+            dead_links = set(gen.mesh_dead_links(w, h))
+            dead_chips = set()
+            for y in range(h):
+                if y == gap:
+                    continue
+                if i % 4 == 1:
+                    dead_chips.add((wall_x, y))
+                else:                                   # a wall of links dead from west to east only
+                    for l in (Links.east, Links.north_east):
+                        dead_links.add((wall_x, y, l))
+            m = Machine(w, h, dead_chips=dead_chips, dead_links=dead_links)
+            far = (gap + h // 2) % h
+            src = (rng.randrange(0, wall_x), far)
+            sinks = [(rng.randrange(wall_x + 1, w), far), (w - 1, rng.randrange(h))]
+        vertices, placements, allocations, net = one_core_each(src, sinks, "d")
+        yield route_trace(m, [net], placements, allocations, {}, rng.choice((0, 20)), seed, vertices)
+
+
+def caller_shapes(chk, rng):
+    """the same kind of call made the ways a caller may make it: allocations / radius left to their defaults,
+    allocations that do not mention every vertex, constraints of other kinds mixed in, constraints and nets in a tuple /
+    iterator / deque, vertices that are ints, tuples or instances of a class (not orderable), nets without sinks,
+    endpoint constraints naming a core"""
+    for i in range(chk.pick(220, 6000)):
+        m = gen.random_machine(rng, maxw=6, maxh=6, p_dead_chip=rng.choice((0, 0.1)))
+        vertices, placements, allocations, endpoints, nets = random_problem(
+            rng, m, rng.randint(1, 3), p_endpoint=rng.choice((0.08, 0.3)), fanouts=(0, 1, 1, 2, 3, 5),
+            core_endpoints=rng.random() < 0.5)
+        kind = rng.choice(("str", "int", "tuple", "object", "mixed"))
+        if kind != "str":
+            vertices, placements, allocations, endpoints, nets = rename_vertices(
+                rng, kind, vertices, placements, allocations, endpoints, nets)
+        extra = []
+        r = rng.random()
+        if r < 0.6:
+            for v in vertices:
+                if rng.random() < 0.4:
+                    extra.append(LocationConstraint(v, placements[v]))
+            if rng.random() < 0.5:
+                extra.append(ReserveResourceConstraint(Cores, slice(0, 1)))
+            if rng.random() < 0.3:
+                extra.append(AlignResourceConstraint(SDRAM, 4))
+            by_chip = {}
+            for v in vertices:
+                by_chip.setdefault(placements[v], []).append(v)
+            same = [vs for vs in by_chip.values() if len(vs) > 1]
+            if same and rng.random() < 0.5:
+                extra.append(SameChipConstraint(list(rng.choice(same))))
+        how = dict(cons=rng.choice(("list", "tuple", "iter", "deque")), nets=rng.choice(("list", "tuple", "iter")),
+                   alloc=rng.choice(("given", "given", "omitted")), radius=rng.choice(("given", "omitted")))
+        if how["alloc"] == "given" and rng.random() < 0.3:
+            allocations = {v: a for v, a in allocations.items() if rng.random() < 0.5}    # silent about some vertices
+        yield route_trace(m, nets, placements, allocations, endpoints, rng.choice((0, 1, 2, 3, 4, 7, 10, 20, 33)),
+                          chk.seed * 100000 + 80000 + i, vertices, extra_cons=extra, how=how)
+
+
+def machine_histories(chk, rng):
+    """one Machine object used for several calls and changed in place in between, the way a caller that learns of
+    faults does: links that the previous trees used are marked dead, a chip the previous trees only passed through is
+    marked dead, dead links are revived; the nets, placements and allocations are the same objects throughout"""
+    for i in range(chk.pick(40, 1200)):
+        m = gen.random_machine(rng, maxw=6, maxh=6, p_dead_chip=rng.choice((0, 0.05)), fault_rate=rng.choice((0, 0.02, 0.1)))
+        vertices, placements, allocations, endpoints, nets = random_problem(rng, m, rng.randint(1, 3))
+        radius = rng.choice((0, 1, 20))
+        used_chips = set(placements[v] for v in vertices)
+        for step in range(3):
+            tr = route_trace(m, nets, placements, allocations, endpoints, radius,
+                             chk.seed * 100000 + 90000 + 3 * i + step, vertices)
+            yield tr
+            hops, passed = [], set()
+            for e in tr["ev"]:
+                if e[0] == "tree":
+                    nodes = e[1]["nodes"]
+                    for a, d, b in e[1]["edges"]:
+                        if 0 <= d < 6:
+                            hops.append((nodes[a - 1][0], nodes[a - 1][1], Links(d)))
+                    passed.update(tuple(c) for c in nodes)
+            if not hops:
+                hops = [(x, y, l) for (x, y) in m for l in Links]
+            what = rng.choice(("links", "links", "chip", "revive"))
+            if what == "links" or (what == "revive" and not m.dead_links):
+                for hop in rng.sample(hops, min(len(hops), rng.randint(1, 3))):
+                    m.dead_links.add(hop)
+            elif what == "chip":
+                through = sorted(passed - used_chips)
+                if through:
+                    m.dead_chips.add(rng.choice(through))
+                else:
+                    m.dead_links.add(rng.choice(hops))
+            else:
+                for l in rng.sample(sorted(m.dead_links), min(len(m.dead_links), 4)):
+                    m.dead_links.discard(l)
+
+
 def run(chk):
     rng = random.Random(chk.seed)
     chk.design("NerRepairDesign", "NerRepairDesign_%s.cfg" % chk.tier,
@@ -232,6 +567,13 @@ def run(chk):
                 allocations[vertices[0]][Cores] = slice(0, 2)
         traces.append(route_trace(m, nets, placements, allocations, endpoints, rng.choice((0, 1, 2, 20)),
                                   chk.seed * 100000 + i, vertices, core))
+    # ---- families added by the coverage audit (see the docstrings)
+    nold = len(traces)
+    for fam in (broadcast_on_faults, big_machines, caller_shapes, machine_histories, ner_shapes, long_detours):
+        k = len(traces)
+        for t in fam(chk, rng):
+            traces.append(t)
+        chk.count("calls: " + fam.__name__, len(traces) - k)
     ntree = 0
     for t in traces:
         raised = t["ev"][-1][0] == "raise"
@@ -246,10 +588,18 @@ def run(chk):
                 "fault-free tori/meshes incl. 1xN, 2xN; random machines up to %dx%d with dead chips and 0-40%% dead links "
                 "(one- and two-directional), 1-4 nets per call with repeated sinks, sinks on the source chip, zero-core "
                 "and endpoint vertices; non-trivial = machine has a fault; distinct = distinct (machine, radius, "
-                "seed, result)" % (nsmall, chk.pick(2, 3), chk.extra.get("small_scope_machines_available"),
-                                   chk.pick(8, 16), chk.pick(8, 16)))
+                "seed, result); audit families (%d calls): nets reaching 30-100%% of the chips of faulty machines up "
+                "to 12x12 through route(); machines up to 36x24 (48x24 thorough) with SpiNN-5 shaped and block-shaped "
+                "clusters of dead chips, 1x40 / 40x2 rings; cut rings and walls across large meshes (detours of 10-25 "
+                "hops); route() with allocations / radius defaulted, partial allocations, constraints of other kinds "
+                "mixed in, constraints and nets as tuple / iterator / deque, vertices that are ints / tuples / "
+                "instances / unorderable mixtures, nets without sinks, endpoint constraints naming cores, radii "
+                "0-40; one Machine object changed in place between three calls (used links / passed chips die, dead "
+                "links revive); ner_net with list / tuple / iterator destinations, no destinations, defaults"
+                % (nsmall, chk.pick(2, 3), chk.extra.get("small_scope_machines_available"),
+                   chk.pick(8, 16), chk.pick(8, 16), len(traces) - nold))
     chk.exhaustive = False
-    chk.sample(traces[0]); chk.sample(traces[nsmall + 1]); chk.sample(traces[-1])
+    chk.sample(traces[0]); chk.sample(traces[nsmall + 1]); chk.sample(traces[nold - 1])
 
     # ---- beyond C03: the Machine model's own utilities against the fabric of Hex.tla
     extras = []
@@ -309,6 +659,8 @@ def selftest(chk):
         (mut(lambda t: t.__setitem__("src", [1, 2])), "RootAtSource"),
         (dict(good, ev=[["raise", "MachineHasDisconnectedSubregion"]]), "FailsOnlyIfDisconnected"),
         (dict(good, ev=[["raise", "AssertionError"]]), "OnlyDisconnectedError"),
+        (dict(good, ev=[["notree", "KeyError"], ["ok"]]), "EveryNetHasATree"),
+        (dict(good, ev=[["malformed", "KeyError"], ["ok"]]), "TreeIsWellFormed"),
     ]
     # a tree that steps over the dead link must be rejected
     bad = copy.deepcopy(good)
